@@ -23,6 +23,7 @@ Definition diag : list (string * list N) := [
  ("regsize_arch_vs_emulator"%string, diag_sizes (arch_sizes py_regs_arch) py_reg_sizes_emulator);
  ("regsize_decoder_vs_emulator"%string, diag_sizes py_reg_sizes_opcodes py_reg_sizes_emulator);
  ("regmask_rust_vs_python"%string, diag_masks py_pc_mask py_reg_sizes_emulator py_subregs_emulator rs_reg_masks);
+ ("regmask_rust_vs_python_register_file"%string, diag_probed py_probed_masks rs_reg_masks);
  ("imem_offset_differs"%string, diag_imem py_imem_aliases rs_imem_offsets);
  ("interrupt_vector"%string, [py_interrupt_vector; rs_interrupt_vector; rs_interrupt_vector_runtime]);
  ("reset_vector"%string, [py_entry_point; rs_reset_vector; py_reset_vector_used]);
@@ -79,7 +80,7 @@ def run(ctx):
             ctx.report(["opcode_table_length", ln], f"opcode tables have {ln} entries", {"lengths": ln})
         for key in ("opcode_entry_differs", "pre_py_not_in_rust", "pre_rust_not_in_py", "pre_not_pre_class", "pre_class_not_in_table",
                     "single_py_not_in_rust", "single_rust_not_in_py", "regsize_arch_vs_emulator", "regsize_decoder_vs_emulator",
-                    "regmask_rust_vs_python", "imem_offset_differs", "segments_rom_view", "segments_full_view", "snapshot_layout"):
+                    "regmask_rust_vs_python", "regmask_rust_vs_python_register_file", "imem_offset_differs", "segments_rom_view", "segments_full_view", "snapshot_layout"):
             for v in diag.get(key, []):
                 ctx.report([key, v], f"{key}: entry {v:#x} differs between copies", {"clause": key, "entry": v})
         iv = diag.get("interrupt_vector", [])
